@@ -384,7 +384,7 @@ def shrink(case, fails):
 
 
 def run(ctx):
-    n = {'quick': 30000, 'thorough': 400000}[ctx.tier]
+    n = {'quick': 100000, 'thorough': 3000000}[ctx.tier]
     explore_cases(ctx, gen, check, n, 'iter', shrink)
     # chunk_ranges grid: a slice in quick, the full grid (sharded) in thorough
     i = 0
